@@ -36,7 +36,7 @@ Fixpoint number_loop (cs : str) (s : str) (digits : N) (decimal expf : bool) {st
             if is_e && ((pk =? 43) || (pk =? 45)) then number_loop rest s1 digits2 decimal1 true
             else if is_e && negb (is_digit pk) then
               (* exp = false; s.pop(); push_front(ch); break -- the letter starts the next token *)
-              finish s digits2 decimal1 false (ch :: rest)
+              finish s digits1 decimal1 false (ch :: rest)    (* the 8 digits credited for a D are taken back *)
             else
               let expf1 := if is_e then true else expf in
               if is_digit pk then number_loop rest s1 digits2 decimal1 expf1
